@@ -61,6 +61,30 @@ class Plain:
     pass
 
 
+class RegBox(t.Generic[t.TypeVar('RB')]):
+    """a third-party container: only the registered global handler knows how to convert it"""
+    def __init__(self, v=None):
+        self.v = v
+
+
+class RegBoxConv(Converter):
+    """what a registered handler for a container does: it builds the converter of the argument from the handlers it is given"""
+    def __init__(self, inner):
+        self.inner = inner
+
+    def expected(self, plural=False):
+        return 'box of ' + self.inner.expected(plural)
+
+    def try_convert(self, val):
+        return RegBox(self.inner.try_convert(val))
+
+    def collect_errors(self, val):
+        return self.inner.collect_errors(val)
+
+    def into_data(self, val):
+        return self.inner.into_data(val.v if isinstance(val, RegBox) else val)
+
+
 _REG = {'on': False, 'defer': False, 'base': None}
 _registered = [False]
 
@@ -68,6 +92,8 @@ _registered = [False]
 def _registered_handler(ty, args, *, handlers):
     if not _REG['on'] or _REG['defer']:
         return NotImplemented
+    if ty is RegBox:
+        return RegBoxConv(make_converter(args[0] if args else t.Any, handlers))
     if ty is _REG['base']:
         return MarkConv('R')
     return NotImplemented
@@ -85,6 +111,7 @@ TARGET = {  # target -> (type, base type handlers are keyed on, data value, type
     'struct': (MyList, MyList, [1], MyList([1])),
     'plain': (Plain, Plain, 'q', Plain()),
     'param': (t.List[int], list, [1], [1]),
+    'regparam': (RegBox[int], int, 5, RegBox(5)),     # local handlers are keyed on the ARGUMENT's type
 }
 
 
@@ -149,6 +176,8 @@ def run_config(cfg: dict) -> str:
         if cfg['dir'] == 'from':
             r = pane.from_data({'k': {'f': shape_wrap(cfg['shape'], xdata)}}, Outer, custom=G)
             v = shape_unwrap(cfg['shape'], r.k.f)
+            if isinstance(v, RegBox):
+                v = v.v
             if isinstance(v, Mark):
                 return v.src
             return 'B'
